@@ -153,7 +153,7 @@ func c07Default(c *cx) {
 				bad = "return at " + c.p.Pos(rs.Pos()) + " is reachable from the unanswered-request edge without the default reply and is not an error return"
 			}
 		}
-		c.r.Check(id, f, "unanswered get/set always answered or the stream fails", "S: from the edge that establishes an unanswered get/set IQ every non-error exit passes the default reply", g.Blocks[ce.E.B].Nodes[len(g.Blocks[ce.E.B].Nodes)-1].Pos(), bad == "", bad)
+		c.r.Check(id, f, "unanswered get/set always answered or the stream fails", "S: from the edge that establishes an unanswered get/set IQ every non-error exit passes the default reply", edgePos(g, f, ce.E.B), bad == "", bad)
 	}
 	// what counts as an IQ: the element name iq in one of the two stanza namespaces
 	// (E-fin decision tables)
